@@ -100,6 +100,17 @@ PROPS = {
         assumptions=["D1 read_be on a byte slice consumes 48 bytes big-endian", "Fq::from_repr: Ok iff value < q (C08 contract)", A['A3'], A['TOOLS'],
                      "rewrites R5 (map_err + ? -> match/return; iter().all -> verified helper all_zero)"],
     ),
+    'C19': dict(
+        units_quick=['serdes', 'codec'], units_thorough=['serdes', 'codec', 'scalar'], timeout=600,
+        claim="PARTIAL (reading side, points): deserialize for G1, G2, G1Affine, G2Affine (real generic bodies over a byte-stream reader): on success "
+              "exactly 48/96 resp. 96/192 bytes are consumed and the value is what the checked decoder of unit codec returns for exactly those bytes; "
+              "truncated input, a form flag contradicting the `compressed` argument and every encoding the checked decoder rejects give an error, never a "
+              "value; vec sizes and copy lengths are proved (no panic).",
+        not_covered=["serialize (all types), Fr and Fq12 (de)serialization, round trip - contracts not completed",
+                     "std::io::Read enters through the assumed contract of read_exact / read (D2)"],
+        assumptions=["D2 Read::read_exact either fills the buffer consuming exactly its length or fails; Vec::append; vec![0; n]", A['TOOLS'],
+                     "rewrites R5v (alloc::vec::from_elem -> contracted stub), R5c (as_mut().copy_from_slice -> verified helper copy_into)"],
+    ),
 }
 
 HOOK_COMMITS = []
